@@ -20,6 +20,7 @@ import (
 
 	"github.com/sarchlab/akita/v4/sim"
 	nvbench "github.com/sarchlab/mgpusim/v4/nvidia/benchmark"
+	nvplatform "github.com/sarchlab/mgpusim/v4/nvidia/platform"
 	nvrunner "github.com/sarchlab/mgpusim/v4/nvidia/runner"
 	"github.com/sarchlab/mgpusim/v4/nvidia/tracereader"
 	log "github.com/sirupsen/logrus"
@@ -184,6 +185,38 @@ func runC20Deep(r *Run, rng *Rng, replay string) {
 		{1, 2, 0, c20Trace{{{2, 0}, {1}}}},
 	} {
 		c20dStallCase(r, w.g, w.s, w.c, w.t)
+	}
+
+	// ---- the shipped platform: A100PlatformBuilder (1 device x 108 SMs x 4 sub-cores)
+	for _, t := range []c20Trace{{{{3, 0, 2}, {}, {1}}, {}}, {{{1, 1, 1, 1, 1, 1}, {2, 2, 2, 2, 2}}, {{4}}}} {
+		var s *c20Sys
+		fault := catch(func() { s = c20Attach(new(nvplatform.A100PlatformBuilder).WithFreq(1*sim.Hz).Build(), 1, 108, 4) })
+		cfg := fmt.Sprintf("c20 run g=1 s=108 c=4 k=%s", t.String())
+		if fault != "" || len(s.sms) != 108 || len(s.subs) != 432 {
+			r.Failf("C20.platform.a100_shape", cfg, "A100PlatformBuilder does not build 1 x 108 x 4: %s", fault)
+			continue
+		}
+		runner := new(nvrunner.RunnerBuilder).WithPlatform(s.p).Build()
+		bm := &nvbench.Benchmark{}
+		for _, kk := range t.kernels() {
+			e := new(nvbench.ExecKernel)
+			e.SetKernel(*kk)
+			bm.TraceExecs = append(bm.TraceExecs, e)
+		}
+		runner.AddBenchmark(bm)
+		ok, f2 := withTimeout(20*time.Second, func() { runner.Run() })
+		if !ok || f2 != "" {
+			r.Failf("C20.terminates.hang", cfg, "A100 platform: hang=%v panic=%s", !ok, f2)
+			continue
+		}
+		r.Case(cfg+" ; "+strings.Join(s.sched, " "), fmt.Sprintf("ev=%d h=%d asleep=1 missed=0 %s", len(s.sched), s.hash, s.final()))
+		r.Count("run:a100_platform")
+		r.Checked("terminates.a100")
+		tot := c20dTotalsOf(s)
+		_, _, w, n, _ := t.totals()
+		if s.p.Driver.VerifUnfinished() != 0 || tot.insts != n || tot.warps != w {
+			r.Failf("C20.terminates.not_finished.a100", cfg, "A100 platform: unfinished=%d executed insts=%d of %d warps=%d of %d", s.p.Driver.VerifUnfinished(), tot.insts, n, tot.warps, w)
+		}
 	}
 
 	// ---- multi-device scheduling with per-event invariants
